@@ -190,14 +190,36 @@ def warm_up():
         pass
 
 
-M_VARIANTS = ["base", "swapEnds", "rotZ", "rotG"]
-X_VARIANTS = ["base", "swapEnds1", "swapEnds2", "swapArcs", "rotZ", "rotG"]
-L_VARIANTS = ["base", "swapEnds", "rotZ", "rotG"]
+M_VARIANTS = ["base", "swapEnds", "rotZ", "jitter", "rotG"]
+X_VARIANTS = ["base", "swapEnds1", "swapEnds2", "swapArcs", "rotZ", "jitter", "rotG"]
+L_VARIANTS = ["base", "swapEnds", "rotZ", "jitter", "rotG"]
+M_NX, X_NX, L_NX = 3, 5, 3  # number of exact variants (the rest are perturbed replays: jitter, rotG)
 
 
-def m_inputs(a, b, p, v, kz, th):
+def jitter(u, rng):
+    """A few ulps of noise on every coordinate (x * (1 + k 2^-52), |k| <= 4; exact zeros become k * 1e-16),
+    then renormalised: what normalising slightly noisy data gives a library consumer.  ~1e-15 rad, nine
+    orders of magnitude below the margin of every judged case."""
+    import numpy as np
+
+    w = [(c * (1.0 + rng.randint(-4, 4) * 2.0 ** -52)) if c != 0.0 else rng.randint(-4, 4) * 1e-16 for c in u]
+    w = np.array(w, dtype=float)
+    return w / np.linalg.norm(w)
+
+
+def jrng(jseed, j):
+    import random
+
+    return random.Random(int(jseed) * 7919 + int(j))
+
+
+def m_inputs(a, b, p, v, kz, th, rng=None):
     """float inputs (pt, gca) of membership variant v (0-based)."""
     import numpy as np
+
+    if v == 3:
+        ja, jb, jp = jitter(unit(a), rng), jitter(unit(b), rng), jitter(unit(p), rng)
+        return jp, np.array([ja, jb])
 
     if v == 0:
         return unit(p), np.array([unit(a), unit(b)])
@@ -223,6 +245,7 @@ def tilt_inputs(a, b, p, j):
 def replay_member(rec):
     pw = fns()["pw"]
     a, b, K, kz, th = rec["a"], rec["b"], rec["K"], rec["kz"], rec["theta"]
+    js, j0 = rec.get("jseed", 0), rec.get("j0", 0)
     out = [[0] * len(rec["pidx"]) for _ in M_VARIANTS]
     tilt = [0] * len(rec["pidx"])
     for j, i in enumerate(rec["pidx"]):
@@ -230,7 +253,7 @@ def replay_member(rec):
         if p == [0, 0, 0]:
             continue
         for v in range(len(M_VARIANTS)):
-            pt, gca = m_inputs(a, b, p, v, kz, th)
+            pt, gca = m_inputs(a, b, p, v, kz, th, jrng(js, j0 + j))
             try:
                 out[v][j] = 1 if bool(pw(pt, gca)) else 0
             except Exception:  # noqa
@@ -240,10 +263,11 @@ def replay_member(rec):
             tilt[j] = 1 if bool(pw(pt, gca)) else 0
         except Exception:  # noqa
             tilt[j] = 2
-    return {"kind": "M", "id": rec["id"], "K": K, "a": a, "b": b, "pidx": rec["pidx"], "r": out, "t": tilt}
+    return {"kind": "M", "id": rec["id"], "K": K, "a": a, "b": b, "pidx": rec["pidx"], "r": out, "t": tilt,
+            "nx": M_NX, "jv": 4}
 
 
-def x_inputs(a, b, c, d, v, kz, th):
+def x_inputs(a, b, c, d, v, kz, th, rng=None):
     """float inputs (gca1, gca2) of intersection variant v (0-based) and the map taking the float of the
     base direction x to the direction expected in this variant."""
     import numpy as np
@@ -260,6 +284,9 @@ def x_inputs(a, b, c, d, v, kz, th):
     if v == 4:
         g = lambda w: unit(rotz_int(w, kz))  # noqa
         return np.array([g(a), g(b)]), np.array([g(c), g(d)]), None
+    if v == 5:
+        g = lambda w: jitter(unit(w), rng)  # noqa
+        return np.array([g(a), g(b)]), np.array([g(c), g(d)]), ident
     g = lambda w: rotg(unit(w), th)  # noqa
     return np.array([g(a), g(b)]), np.array([g(c), g(d)]), None
 
@@ -282,14 +309,15 @@ def replay_pairs(rec):
 
     gi = fns()["gi"]
     a, b, kz, th = rec["a"], rec["b"], rec["kz"], rec["theta"]
+    js, j0 = rec.get("jseed", 0), rec.get("j0", 0)
     out = []
-    for (c, d), x in zip(rec["o"], rec["x"]):
+    for j, ((c, d), x) in enumerate(zip(rec["o"], rec["x"])):
         row = []
         for v in range(len(X_VARIANTS)):
-            g1, g2, _ = x_inputs(a, b, c, d, v, kz, th)
+            g1, g2, _ = x_inputs(a, b, c, d, v, kz, th, jrng(js, j0 + j))
             if v == 4:
                 xu = unit(rotz_int(x, kz))
-            elif v == 5:
+            elif v == 6:
                 xu = rotg(unit(x), th)
             else:
                 xu = unit(x)
@@ -304,7 +332,7 @@ def replay_pairs(rec):
             except Exception:  # noqa
                 row.append([-1, 0, 0])
         out.append(row)
-    return {"kind": "X", "id": rec["id"], "a": a, "b": b, "o": rec["o"], "r": out}
+    return {"kind": "X", "id": rec["id"], "a": a, "b": b, "o": rec["o"], "r": out, "nx": X_NX, "jv": 6}
 
 
 def replay_lat(rec):
@@ -322,6 +350,9 @@ def replay_lat(rec):
             gca = np.array([unit(b), unit(a)])
         elif v == 2:
             gca = np.array([unit(rotz_int(a, kz)), unit(rotz_int(b, kz))])
+        elif v == 3:
+            rng = jrng(rec.get("jseed", 0), 0)
+            gca = np.array([jitter(unit(a), rng), jitter(unit(b), rng)])
         else:
             gca = np.array([rotg(unit(a), th), rotg(unit(b), th)])
         row = [[], [], 0]
@@ -332,7 +363,7 @@ def replay_lat(rec):
             except Exception:  # noqa
                 row[2] = 1
         out.append(row)
-    return {"kind": "L", "id": rec["id"], "a": a, "b": b, "r": out}
+    return {"kind": "L", "id": rec["id"], "a": a, "b": b, "r": out, "nx": L_NX, "jv": 4}
 
 
 # ------------------------------------------------------------------------------- diagnostics
@@ -341,14 +372,14 @@ def plane_residual_member(a, b, p, v, kz, th):
     a *signature field* of an already-decided false negative (known finding C14-F2), never for a verdict."""
     import numpy as np
 
-    pt, gca = m_inputs(a, b, p, v, kz, th)
+    pt, gca = m_inputs(a, b, p, v, kz, th, jrng(0, 0))
     return abs(float(np.dot(np.cross(gca[0], gca[1]), pt)))
 
 
 def plane_residual_pair(a, b, c, d, v, kz, th):
     import numpy as np
 
-    g1, g2, _ = x_inputs(a, b, c, d, v, kz, th)
+    g1, g2, _ = x_inputs(a, b, c, d, v, kz, th, jrng(0, 0))
     n1 = np.cross(g1[0], g1[1])
     n2 = np.cross(g2[0], g2[1])
     x = np.cross(n1, n2)
